@@ -33,10 +33,42 @@ void harness(void)
   for (int i = 0; i < HLEN; i++) CHECK(o[i] == ref[i], "tag equals RFC 2104 HMAC over the bytes from the current position to EOF");
   CHECK(envf_nwrites(f) == 0, "computing the tag does not write to the file");
 #else
-  u32 r = vf_hmac_cmp(m, HT, key, f, IN.tag);
+  /* candidate tag = true tag xor an arbitrary difference pattern (so that a counterexample means the same thing on the real build,
+     where the hash is the real one): all 2^512 candidate tag fields are still covered */
+  u8 cand[64];
   int eq = 1;
-  for (int i = 0; i < HLEN; i++) if (IN.tag[i] != ref[i]) eq = 0;
-  CHECK((r != 0) == (eq != 0), "comparison accepts iff every tag byte matches");
+#ifdef CRASHTAG
+  /* C13: the tag field of an interrupted encryption is zero, or (crash inside the 20..32-byte tag write) the first J bytes of the
+     true tag followed by zeros, J < hlen.  Such a field may be accepted only if the missing tag bytes are themselves zero (A-ZERO). */
+  u32 J = IN.tag[0];
+  ASSUME(J < HLEN);
+#define MKCAND() do { eq = 1; for (int i = 0; i < 64; i++) cand[i] = (u8)((i < HLEN && (u32)i < J) ? ref[i] : 0); \
+                      for (int i = 0; i < HLEN; i++) if ((u32)i >= J && ref[i] != 0) eq = 0; } while (0)
+#define CMPMSG "a partially written tag field is accepted only if the missing tag bytes are zero"
+#else
+  for (int i = 0; i < HLEN; i++) if (IN.tag[i] != 0) eq = 0;
+#define MKCAND() do { for (int i = 0; i < 64; i++) cand[i] = (u8)((i < 32 ? ref[i] : 0) ^ IN.tag[i]); } while (0)
+#define CMPMSG "comparison accepts iff every tag byte matches"
+#endif
+#if !MODEL
+  /* native replay: a counterexample may depend on a property of the tag VALUE (e.g. a zero byte) that the uninterpreted hash could
+     choose freely; search the 65536 keys that differ in the last two bytes for one whose real tag shows the same wrong verdict */
+  for (u32 v = 0; v < 65536; v++) {
+    key[14] = (u8)(IN.key[14] ^ (v >> 8)); key[15] = (u8)(IN.key[15] ^ v);
+    u8 k2[16]; memcpy(k2, key, 16);
+    sref_hmac(HT, k2, IN.file + POS, FLEN - POS, ref);
+    MKCAND();
+    u8 *f2 = envf_open_in(IN.file, FLEN); envf_seek(f2, POS);
+    u32 r2 = vf_hmac_cmp(m, HT, key, f2, cand);
+    envf_release(f2);
+    CHECK((r2 != 0) == (eq != 0), CMPMSG);
+  }
+  memcpy(key, IN.key, 16);
+  sref_hmac(HT, IN.key, IN.file + POS, FLEN - POS, ref);
+#endif
+  MKCAND();
+  u32 r = vf_hmac_cmp(m, HT, key, f, cand);
+  CHECK((r != 0) == (eq != 0), CMPMSG);
 #endif
   WITNESS_POINT();
 }
